@@ -838,3 +838,48 @@ Proof.
            (capplies_at a CR_noop_frozen s); split; intros X; try discriminate; auto;
     destruct X; discriminate.
 Qed.
+
+(** ** A hook collection of any length — the empty one included — is a request for hooks *)
+
+Lemma field_pipe_is_hooked s a x hs : a_on_setattr x = OsPipe hs -> hooked s a x = true.
+Proof. intros H. unfold hooked. rewrite H. reflexivity. Qed.
+
+Lemma cls_pipe_is_live s a hs : builder_os (s_o s) = COsPipe hs -> cls_hooks_live s a = true.
+Proof. intros H. unfold cls_hooks_live. rewrite H. reflexivity. Qed.
+
+Lemma hook_collections_any_length_l s hs :
+  is_frozen (s_o s) = true ->
+  (builder_os (s_o s) = COsPipe hs \/
+   exists x, In x (fields s (eff_auto s)) /\ a_on_setattr x = OsPipe hs) ->
+  capplies CR_hooks_frozen s = true.
+Proof.
+  intros Hf H. unfold capplies, capplies_at. rewrite Hf. cbn [andb].
+  destruct H as [H | (x & Hx & Hos)].
+  - rewrite (cls_pipe_is_live s _ hs H). reflexivity.
+  - apply orb_true_iff. right. apply existsb_exists. exists x. split; [exact Hx|].
+    rewrite Hos. reflexivity.
+Qed.
+
+Lemma hook_collections_own_setattr_l s hs :
+  ad (s_o s) = true -> o_own_setattr (s_o s) = true -> frozen_arg (s_o s) = false ->
+  fields s (eff_auto s) <> [] ->
+  (builder_os (s_o s) = COsPipe hs /\ (forall x, In x (fields s (eff_auto s)) -> a_on_setattr x = OsNone) \/
+   exists x, In x (fields s (eff_auto s)) /\ a_on_setattr x = OsPipe hs) ->
+  capplies CR_hooks_own_setattr s = true.
+Proof.
+  intros Ha Ho Hz Hne H. unfold capplies, capplies_at. rewrite Ha, Ho, Hz. cbn [andb negb].
+  apply existsb_exists. destruct H as [[H Hall] | (x & Hx & Hos)].
+  - destruct (fields s (eff_auto s)) as [|x r] eqn:E; [contradiction|].
+    exists x. split; [now left|]. unfold hooked. rewrite (Hall x (or_introl eq_refl)).
+    apply (cls_pipe_is_live s _ hs H).
+  - exists x. split; [exact Hx | exact (field_pipe_is_hooked s _ x hs Hos)].
+Qed.
+
+(** the empty collection concretely: [attr.s(frozen=True, on_setattr=[])] *)
+Definition empty_hooks_spec : spec :=
+  one_class (CO AttrS None (Some true) None None tN false false tN tN None HN HN false tN tN false (COsPipe []) None
+                false false false false false false false false) [fld "x"].
+
+Lemma empty_hooks_rejected_l :
+  build empty_hooks_spec = Rejected PDeco XValue /\ applicable empty_hooks_spec = [CR_hooks_frozen].
+Proof. split; vm_compute; reflexivity. Qed.
